@@ -64,3 +64,57 @@ add(
       "all 2^40 (date,time,tenths) triples"),
     twin("time::verif::twin_time_roundtrip_1ms", ["C18"], "claims 1 ms resolution (wrong)", "d.millis == ms"),
 )
+
+# ------------------------------------------------------------------ boot_sector.rs
+ASSUMPTIONS["C07"] = [
+    "BPB/FS-info structs are constructed directly with symbolic fields; the byte-level deserialisers are checked by "
+    "their own small harnesses (512 symbolic bytes through BootSector::deserialize exceed CBMC's memory here)",
+    "hang-freedom of FileSystem::new on a device that short-reads forever is a device-contract matter and outside",
+]
+add(
+    H("boot_sector::verif::bpb_validate_total", ["C07"],
+      "BiosParameterBlock::validate on fully symbolic fields: no panic, no arithmetic overflow",
+      "every value of every BPB field (labels fixed)"),
+    H("boot_sector::verif::bpb_accept_coherent", ["C07"],
+      "validate()==Ok implies the independent u64 coherence predicate (sector/cluster powers of two, non-zero FATs, "
+      "regions fit without 32-bit wrap, FAT width = f(cluster count), FAT32 root cluster in range, fsinfo/backup in reserved area)",
+      "every value of every BPB field"),
+    H("boot_sector::verif::bpb_geometry_agrees", ["C07", "C20"],
+      "for accepted BPBs root_dir_sectors/first_data_sector/total_clusters/cluster_size/FatType::from_clusters equal the u64 reference parse",
+      "every accepted BPB"),
+    twin("boot_sector::verif::twin_bpb_accept_two_fats", ["C07"], "claims every accepted volume has 2 FATs", "bpb.fats == 2"),
+    H("boot_sector::verif::bpb_cluster_offset_in_volume", ["C11", "C20"],
+      "for every accepted BPB and every cluster in [2,total+2): sector/byte offset arithmetic has no overflow, equals the "
+      "u64 reference and the cluster ends inside total_sectors*bytes_per_sector (covers: offsets beyond 4 GiB and 1 TiB, last cluster)",
+      "every accepted BPB x every valid cluster number"),
+    H("boot_sector::verif::bpb_byte_sector_conversions", ["C20", "C11"],
+      "bytes_from_sectors is the exact 64-bit product; clusters_from_bytes is the exact ceiling",
+      "every sector number, every byte count < 2^32, every valid sector/cluster size"),
+)
+
+ASSUMPTIONS["C06"] = [
+    "format_boot_sector + BootSector::validate(strict) is what format_volume runs before any I/O (fs.rs); the I/O part "
+    "(region zeroing, FAT initialisation, FS-info) is decided by separate harnesses on table/log devices",
+    "options are constructed as a struct literal: sector size one of the listed powers of two, cluster size any power of "
+    "two 2^9..2^31, fats in {1,2} (the builder methods assert exactly these)",
+]
+add(
+    H("boot_sector::verif::fmt_default_all_sizes", ["C06"],
+      "format_boot_sector(default options, n) is Ok for every n", "every n in [42, 2^32-1]"),
+    twin("boot_sector::verif::twin_fmt_default_41", ["C06"], "claims n >= 41 suffices (41 sectors cannot be formatted)", "r.is_ok()"),
+    H("boot_sector::verif::fmt_default_valid", ["C06"],
+      "default options: result passes BootSector::validate(strict) and the independent u64 validity predicate (FAT width = "
+      "f(clusters), table addresses every cluster, regions fit, FAT32 root/fsinfo/backup placement, signature)",
+      "every n in [42, 2^32-1]; covers FAT12, FAT16, FAT32, n = 2^32-1"),
+    twin("boot_sector::verif::twin_fmt_forced_fat16_always_ok", ["C06"], "claims forcing FAT16 always succeeds", "is_ok()"),
+)
+for bps in (512, 1024, 2048, 4096):
+    for ft in ("auto", "fat12", "fat16", "fat32"):
+        add(H("boot_sector::verif::fmt_options_%d_%s" % (bps, ft), ["C06"],
+              "no panic/overflow; Ok and self-validated => independent validity predicate and requested width; Err => InvalidInput",
+              "sector size %d, FAT type %s; symbolic: total sectors (all u32), cluster size 2^9..2^31 or unset, fats 1|2, "
+              "root entries (all u16), media, ids, label" % (bps, ft), timeout=900))
+for n in ("8192_auto", "16384_auto", "32768_auto", "32768_fat32"):
+    add(H("boot_sector::verif::fmt_options_" + n, ["C06"],
+          "sector sizes above 4096 that the options builder accepts: no panic, never a volume, only InvalidInput",
+          "sector size/type %s; other options symbolic" % n, tier="thorough", timeout=1800))
